@@ -61,6 +61,11 @@ def make_cases(ctx, rng):
               if p and p[0] == "CASE"]
     if len(tables) < 1000:
         raise MachineryError("table generation produced only %d tables" % len(tables))
+    ctx.cov["canonical_tables_enumerated"] = len(tables)
+    if ctx.quick and len(tables) > 3200:        # quick tier: every table of <= 3 rows and a seeded sample of the 4-row tables
+        small = [t for t in tables if len(t) <= 3]
+        big = [t for t in tables if len(t) > 3]
+        tables = small + [big[int(i)] for i in sorted(rng.permutation(len(big))[:3200 - len(small)])]
     cases = []
     idx = ctx.seed
     for t in tables:
@@ -93,7 +98,7 @@ def make_cases(ctx, rng):
                       "decoys": True, "chunk": 1 + j % 4, "fmt": "pin",
                       "prefixes": (["a", "b", "c"][:k] if j % 3 else None), "workers": 1})
     # larger random tables (heavy ties)
-    for j in range(20 if ctx.quick else 500):
+    for j in range(12 if ctx.quick else 500):
         n = int(rng.choice([60, 120, 200]))
         rows = random_table(rng, n)
         dedup, rollup, decoys = FLAGS[j % 8]
@@ -264,10 +269,11 @@ def run(ctx):
     ctx.assume("scores handed to assign_confidence are dyadic (rank/4 - 2) so that text round trips are exact")
     return ctx.finish(
         rule="tables = every canonical table (spectra/entities named by first appearance, dense ranks with ties) enumerated by "
-             "TLC from ConfGen.tla (<=4 rows, <=3 spectra, <=2 entities per level), each run through the real assign_confidence "
+             "TLC from ConfGen.tla (<=4 rows, <=3 spectra, <=2 entities per level; quick: all tables of <=3 rows + a seeded sample of "
+             "the 4-row tables, thorough: all), each run through the real assign_confidence "
              "with rotating labels/flags/chunk sizes/merge chunk/format/workers; plus multi-collection runs with and without "
              "prefixes, random 60-200 row tables with heavy ties, and brew_rollup on the result files of 2-3 prefixed "
-             "collections; distinct = distinct (table, labels, flags, chunk, format)", exhaustive=True)
+             "collections; distinct = distinct (table, labels, flags, chunk, format)", exhaustive=not ctx.quick)
 
 
 def replay(ctx, case):
